@@ -1562,12 +1562,15 @@ impl Vm {
     }
 
     fn reset_stack(&mut self) {
-        if let Some(fiber) = self.fiber.as_ref() {
+        // The failed fiber and every fiber waiting for it (its chain of callers) are abandoned.
+        let mut next = self.fiber.as_ref().map(|fiber| fiber.as_gc());
+        while let Some(fiber) = next {
             let mut borrowed_fiber = fiber.borrow_mut();
             // Variables of the abandoned run that closures captured keep their values.
             borrowed_fiber.close_upvalues(0);
             borrowed_fiber.stack.clear();
             borrowed_fiber.frames.clear();
+            next = borrowed_fiber.caller.take();
         }
     }
 
